@@ -420,7 +420,7 @@ def _Tiger(case, rng):
 
 def _LoadUnload(case, rng):
     from msdm.domains.loadunload import LoadUnload
-    n = rng.randint(2, 8)
+    n = rng.choice([2, 2, 3, 4, 5, 6, 7, 8])       # (the two-cell corridor often: instances of different sizes follow each other in one process)
     g = rng.choice([0.99, 0.5])
     if rng.random() < 0.1:
         return case.call("LoadUnload()", lambda: LoadUnload()), dict(nstates="default", discount_rate="default"), {}
